@@ -190,6 +190,8 @@ fn exponent() -> BoxedStrategy<Vec<u64>> {
 
 fn modpow_triple(ml: usize) -> BoxedStrategy<(Vec<u64>, Vec<u64>, Vec<u64>)> {
     prop_oneof![
+        // long exponents (beyond 2048 bits) with a short modulus, so the reference stays cheap
+        2 => (gen::nat(3), gen::big_nat(vec![31, 32, 33, 34, 40]), modulus(2)),
         // independent base
         40 => (gen::nat(ml + 2), exponent(), modulus(ml)),
         // base >= m with equal length: m + small, B^n - small
@@ -251,7 +253,7 @@ impl Property for C05 {
         "C05"
     }
     fn rule(&self) -> &'static str {
-        "Cases: modpow.u / modpow.i (base, exponent, modulus) and modinv.u / modinv.i (base, modulus). Moduli have 1..6 digits (quick) / ..24 (thorough) with top digit in {1,2,3,5,2^32,2^63,2^63+1,MAX-2..MAX, random}, forced odd or even, 1, and 2^k+{-1,0,1}; bases are independent, m+small, B^n-small (equal length, >= m), the small-top-digit-modulus x base=B^n-small family for the Montgomery final subtraction, 0, 1, m-1, m, 3m; exponents 0,1,2, 2^k, 4-bit windows that are zero, zero low digits, random. BigInt adds all sign combinations, negative exponents and m = +-1; zero modulus is generated for the panic clause. Oracles: RefInt square-and-multiply with self-checked division reduced to the floor-mod representative; modinv by the validity predicate (Some iff reference gcd = 1, b*x = 1 mod m, x in the documented interval). Non-trivial: m >= 2, e >= 2, b mod m not in {0,1} (modpow); coprime with m above 64 bits (modinv); or a documented-failure case."
+        "Cases: modpow.u / modpow.i (base, exponent, modulus) and modinv.u / modinv.i (base, modulus). Moduli have 1..6 digits (quick) / ..24 (thorough) with top digit in {1,2,3,5,2^32,2^63,2^63+1,MAX-2..MAX, random}, forced odd or even, 1, and 2^k+{-1,0,1}; bases are independent, m+small, B^n-small (equal length, >= m), the small-top-digit-modulus x base=B^n-small family for the Montgomery final subtraction, 0, 1, m-1, m, 3m; exponents 0,1,2, 2^k, 4-bit windows that are zero, 0..7 zero low digits, random, and 31..40-digit exponents (beyond 2048 bits) over 1-2 digit moduli. BigInt adds all sign combinations, negative exponents and m = +-1; zero modulus is generated for the panic clause. Oracles: RefInt square-and-multiply with self-checked division reduced to the floor-mod representative; modinv by the validity predicate (Some iff reference gcd = 1, b*x = 1 mod m, x in the documented interval). Non-trivial: m >= 2, e >= 2, b mod m not in {0,1} (modpow); coprime with m above 64 bits (modinv); or a documented-failure case."
     }
     fn strategy(&self, tier: Tier) -> BoxedStrategy<Case> {
         let ml = match tier {
@@ -296,7 +298,7 @@ impl Property for C05 {
     fn budget(&self, tier: Tier) -> Budget {
         match tier {
             Tier::Quick => Budget { release: 1_200_000, dbg: 400_000, workers: 8 },
-            Tier::Thorough => Budget { release: 3_000_000, dbg: 600_000, workers: 16 },
+            Tier::Thorough => Budget { release: 12_000_000, dbg: 3_000_000, workers: 16 },
         }
     }
     fn probes(&self) -> Vec<Probe> {
@@ -306,7 +308,7 @@ impl Property for C05 {
     fn assumptions(&self) -> Vec<String> {
         vec![
             "RefInt modpow (binary method over self-checked division) and gcd are cross-checked against CPython pow()/math.gcd".into(),
-            "moduli up to 6 digits (quick) / 24 digits (thorough), exponents up to ~200 bits".into(),
+            "moduli up to 6 digits (quick) / 24 digits (thorough), exponents up to ~500 bits with every modulus size, up to 40 digits (2560 bits) with 1-2 digit moduli".into(),
         ]
     }
 }
